@@ -21,6 +21,7 @@ import (
 	"Havoc/pkg/profile/yaotl/gohcl"
 	"Havoc/pkg/profile/yaotl/hcldec"
 	"Havoc/pkg/profile/yaotl/hclsyntax"
+	"Havoc/pkg/profile/yaotl/hclwrite"
 	hjson "Havoc/pkg/profile/yaotl/json"
 
 	"github.com/zclconf/go-cty/cty"
@@ -129,9 +130,17 @@ func valNative(v string) string {
 	return "null"
 }
 
+// jsonTemplates: strings are written so that they mean themselves when read as templates (with an evaluation context)
+var jsonTemplates bool
+
 func valJSON(v string) any {
 	switch v[0] {
 	case 's':
+		if jsonTemplates {
+			t := string(unhx(orDash(v[1:])))
+			t = strings.ReplaceAll(t, "${", "$${")
+			return strings.ReplaceAll(t, "%{", "%%{")
+		}
 		return string(unhx(orDash(v[1:])))
 	case 'n':
 		var n json.Number = json.Number(v[1:])
@@ -149,6 +158,40 @@ func valJSON(v string) any {
 		return out
 	}
 	return nil
+}
+
+// heredocOf: a heredoc that means exactly t (t ends with a line end); the first line may begin with an interpolation
+// of a string literal in column one, the flush form indents the other lines
+func heredocOf(r *gen.Rng, t string) string {
+	esc := func(l string) string {
+		l = strings.ReplaceAll(l, "${", "$${")
+		return strings.ReplaceAll(l, "%{", "%%{")
+	}
+	lines := strings.Split(strings.TrimSuffix(t, "\n"), "\n")
+	flush := r.Bool()
+	var b strings.Builder
+	if flush {
+		b.WriteString("<<-EOT\n")
+	} else {
+		b.WriteString("<<EOT\n")
+	}
+	for i, l := range lines {
+		switch {
+		case i == 0 && r.Chance(2, 3): // an interpolation (or a directive) right after the opening line
+			if r.Bool() {
+				b.WriteString("${" + quoteLit(l) + "}\n")
+			} else {
+				b.WriteString("%{ if true }" + esc(l) + "%{ endif }\n")
+			}
+		default:
+			b.WriteString(esc(l) + "\n")
+		}
+	}
+	if flush {
+		b.WriteString("  ")
+	}
+	b.WriteString("EOT\n")
+	return b.String()
 }
 
 type writer struct {
@@ -170,6 +213,12 @@ func (w *writer) body(b *cBody, ind string, sb *strings.Builder) {
 			eq := " = "
 			if w.shuffle {
 				eq = gen.Pick(w.r, []string{" = ", "=", "   =\t"})
+			}
+			if v := b.attrs[n]; w.shuffle && v[0] == 's' && w.r.Chance(1, 2) {
+				if t := string(unhx(orDash(v[1:]))); strings.HasSuffix(t, "\n") && !strings.Contains(t, "\r") {
+					sb.WriteString(ind + n + eq + heredocOf(w.r, t))
+					return
+				}
 			}
 			sb.WriteString(ind + n + eq + valNative(b.attrs[n]) + "\n")
 		})
@@ -560,15 +609,17 @@ func dumpGo(v reflect.Value, s *schema, labeled bool) string {
 	return "{" + strings.Join(ps, ",") + "}"
 }
 
-func decodeBoth(body hcl.Body, s *schema) string {
+func decodeBoth(body hcl.Body, s *schema) string { return decodeBothCtx(body, s, nil) }
+
+func decodeBothCtx(body hcl.Body, s *schema, ctx *hcl.EvalContext) string {
 	return guard(func() string {
-		v, d1 := hcldec.Decode(body, specOf(s, false), nil)
+		v, d1 := hcldec.Decode(body, specOf(s, false), ctx)
 		r1 := "ERR"
 		if !d1.HasErrors() {
 			r1 = dumpCty(v, s, false)
 		}
 		target := reflect.New(structOf(s, false))
-		d2 := gohcl.DecodeBody(body, nil, target.Interface())
+		d2 := gohcl.DecodeBody(body, ctx, target.Interface())
 		r2 := "ERR"
 		if !d2.HasErrors() {
 			r2 = dumpGo(target.Elem(), s, false)
@@ -595,7 +646,7 @@ func runC19(c *Ctx) {
 		return
 	}
 	r := c.R
-	strs := []string{"", "a", "two words", "q\"uote", "ünï", "${x}", "line\nbreak", "5", "true"}
+	strs := []string{"", "a", "two words", "q\"uote", "ünï", "${x}", "line\nbreak", "5", "true", "%{y}", "100%{done}", "a %{ if c }b%{ endif }", "%%{", "$${", "two\nlines\n", "${x} first\n  indented\n", "one\n", "\n", " lead\n%{z}\n"}
 	var genSchema func(d int) *schema
 	genSchema = func(d int) *schema {
 		s := &schema{}
@@ -832,6 +883,23 @@ func c19Line(c *Ctx, in string) {
 			res["merged"] = "SYNTAX"
 		} else {
 			res["merged"] = decodeBoth(hcl.MergeFiles([]*hcl.File{fA, fB}), s)
+		}
+		// the JSON form read with an evaluation context: strings are templates there, written escaped
+		if !strings.HasPrefix(fault, "nolabel") {
+			jsonTemplates = true
+			jst, _ := json.Marshal(jsonBody(b, s))
+			jsonTemplates = false
+			if jf, d := hjson.Parse(jst, "x.json"); !d.HasErrors() {
+				res["jsont"] = decodeBothCtx(jf.Body, s, &hcl.EvalContext{})
+			} else {
+				res["jsont"] = "SYNTAX"
+			}
+		}
+		// the shuffled form after the formatter
+		if body, ok := parseNative(string(hclwrite.Format([]byte(f1.String())))); ok {
+			res["formatted"] = decodeBoth(body, s)
+		} else {
+			res["formatted"] = "SYNTAX"
 		}
 		if body, ok := parseNative(f4.String()); ok {
 			res["dynamic"] = decodeBoth(dynblock.Expand(body, nil), s)
